@@ -19,7 +19,7 @@ RULE = ("histories of 1..40 public RSTWriter API operations (text/field/bulleted
 ASSUMPTIONS = ["titles, names, items and field values are single-line and contain a non-space character "
                "(the property speaks of lines); sections are created on writers/sections only",
                "blank/whitespace-only lines are not constrained by the property and are ignored"]
-BUDGET = {"quick": {"shards": 4, "examples": 400}, "thorough": {"shards": 16, "examples": 4000}}
+BUDGET = {"quick": {"shards": 8, "examples": 400}, "thorough": {"shards": 16, "examples": 4000}}
 
 HEADER_POOL = list("#*=-_~!&@^+:.'\"`$%<>")
 
